@@ -300,3 +300,38 @@ From DashuGen Require Import Log2Tab.
 Theorem C12_log2_tab_is_source : LOG2_TAB = LOG2_TAB_gen.
 Proof. exact log2_tab_is_source. Qed.
 Print Assumptions C12_log2_tab_is_source.
+
+(** * the Karatsuba square root kernel (integer/src/root.rs), as-is on Z-with-lengths: every length, every word size *)
+From Dashu Require Import Int.GrlKsqrt Int.GrlKsqrtProof.
+(** a has 2n words and is normalised (top two bits not both zero); fuel n suffices; the answer is
+    (isqrt, low n words of the remainder, carry of the remainder) *)
+Theorem C12_ksqrt_correct : forall w, 2 <= w -> forall fuel n A, 2 <= n -> (Z.to_nat n <= fuel)%nat ->
+  (2 ^ w) ^ (2 * n) <= 4 * A -> A < (2 ^ w) ^ (2 * n) ->
+  ksqrt w fuel n A = Ok (Z.sqrt A, (A - Z.sqrt A * Z.sqrt A) mod (2 ^ w) ^ n, (2 ^ w) ^ n <=? A - Z.sqrt A * Z.sqrt A).
+Proof. exact ksqrt_correct. Qed.
+Print Assumptions C12_ksqrt_correct.
+
+(** the four-word base case sqrt_rem_42 *)
+Theorem C12_sqrt_rem_42_correct : forall w, 2 <= w -> forall A, (2 ^ w) ^ 4 <= 4 * A -> A < (2 ^ w) ^ 4 ->
+  exists S R, sqrt_rem_42 w A = Ok (S, R mod (2 ^ w) ^ 2, (2 ^ w) ^ 2 <=? R)
+    /\ A = S * S + R /\ 0 <= R <= 2 * S /\ 0 <= S.
+Proof. exact sqrt_rem_42_correct. Qed.
+Print Assumptions C12_sqrt_rem_42_correct.
+
+(** one level of the recursion (division by s1, q == B overflow, odd quotient fix, correction s -= 1)
+    for abstract slice sizes: Zimmermann's invariant A = S^2 + R, 0 <= R <= 2S is re-established *)
+Theorem C12_kstep_abs_correct : forall L2 L H2 Hh M LL (oddn : bool) A s1 r1,
+  0 < L2 -> L = 2 * L2 -> Hh = 2 * H2 -> L <= Hh -> M = Hh * L -> LL = L * L ->
+  (if oddn then 2 * LL <= M else LL = M) ->
+  0 <= A ->
+  A / LL = s1 * s1 + r1 -> 0 <= r1 <= 2 * s1 -> H2 <= s1 < Hh ->
+  exists S R, kstep_abs L Hh M LL L2 oddn A (s1, r1 mod Hh, Hh <=? r1) = Ok (S, R mod M, M <=? R)
+    /\ A = S * S + R /\ 0 <= R <= 2 * S /\ 0 <= S.
+Proof. exact kstep_abs_correct. Qed.
+Print Assumptions C12_kstep_abs_correct.
+
+(** sqrt_rem_large of root_ops.rs with the kernel inside: every integer of three or more words, every even word size *)
+Theorem C12_sqrt_rem_large_asis_correct : forall w, 2 <= w -> w mod 2 = 0 -> forall x, (2 ^ w) ^ 2 <= x ->
+  sqrt_rem_large_asis w x = Ok (sqrt_rem_spec x).
+Proof. exact sqrt_rem_large_asis_correct. Qed.
+Print Assumptions C12_sqrt_rem_large_asis_correct.
